@@ -965,7 +965,12 @@ func (vx *Vaxis) handleSequence(seq ansi.Sequence) {
 					vx.PostEventBlocking(textAreaChar{})
 					return
 				}
-				vx.chSizeDone <- true
+				// Nobody waits for an unsolicited report, don't block
+				// the input loop on it
+				select {
+				case vx.chSizeDone <- true:
+				default:
+				}
 			case 48:
 				// CSI <type> ; <height> ; <width> ; <height_pix> ; <width_pix> t
 				switch len(seq.Parameters) {
@@ -1067,21 +1072,21 @@ func (vx *Vaxis) handleSequence(seq ansi.Sequence) {
 			// content. In this case, we don't want to fill the channel buffer
 			// as no one will clear it.
 			if vx.CanReportColor() {
-				vx.chColor <- string(seq.Payload)
+				offer(vx.chColor, string(seq.Payload))
 			}
 			vx.PostEventBlocking(capabilityOsc4{})
 		}
 		if strings.HasPrefix(string(seq.Payload), "10") {
 			// Similar to OSC 4
 			if vx.CanReportForegroundColor() {
-				vx.chFg <- string(seq.Payload)
+				offer(vx.chFg, string(seq.Payload))
 			}
 			vx.PostEventBlocking(capabilityOsc10{})
 		}
 		if strings.HasPrefix(string(seq.Payload), "11") {
 			// Similar to OSC 4
 			if vx.CanReportBackgroundColor() {
-				vx.chBg <- string(seq.Payload)
+				offer(vx.chBg, string(seq.Payload))
 			}
 			vx.PostEventBlocking(capabilityOsc11{})
 		}
@@ -1130,6 +1135,7 @@ func (vx *Vaxis) QueryColor(c Color) Color {
 	if len(p) != 1 {
 		return Color(0)
 	}
+	drain(vx.chColor)
 	vx.tw.WriteStringLocked(tparm(osc4, p[0]))
 	resp := <-vx.chColor
 	var r, g, b int
@@ -1154,6 +1160,7 @@ func (vx *Vaxis) QueryForeground() Color {
 	if !vx.CanReportForegroundColor() {
 		return Color(0)
 	}
+	drain(vx.chFg)
 	vx.tw.WriteStringLocked(osc10)
 	resp := <-vx.chFg
 	var r, g, b int
@@ -1174,6 +1181,7 @@ func (vx *Vaxis) QueryBackground() Color {
 	if !vx.CanReportBackgroundColor() {
 		return Color(0)
 	}
+	drain(vx.chBg)
 	vx.tw.WriteStringLocked(osc11)
 	resp := <-vx.chBg
 	var r, g, b int
@@ -1184,6 +1192,29 @@ func (vx *Vaxis) QueryBackground() Color {
 	}
 	// Similar to QueryColor above.
 	return RGBColor(uint8(r), uint8(g), uint8(b))
+}
+
+// offer hands a reply over to a Query call without ever blocking the input
+// loop. A reply nobody asked for stays in the channel's buffer, it is replaced
+// by the newer one
+func offer(ch chan string, reply string) {
+	for {
+		select {
+		case ch <- reply:
+			return
+		default:
+		}
+		drain(ch)
+	}
+}
+
+// drain drops a reply which was never asked for, or was asked for by a call
+// which is gone
+func drain(ch chan string) {
+	select {
+	case <-ch:
+	default:
+	}
 }
 
 func (vx *Vaxis) sendQueries() {
